@@ -4,7 +4,7 @@
    "ring"/"field": Section hypotheses, closed at Qc below.
    Models: Aggregates.v (plain_aggregates, pointwise_aggregates as coded), Tentative.v,
    Coarsen.v (aggregation, smoothed_aggregation, ruge_stuben as coded). *)
-From Amgcl Require Import Scalar QcInst Vec Crs Kernels MatOps MatOps2 Aggregates Tentative Coarsen CoarsenProofs.
+From Amgcl Require Import Scalar QcInst Vec Crs Kernels MatOps MatOps2 MatOps2Proofs Aggregates Tentative Coarsen CoarsenProofs.
 Local Open Scope S_scope.
 
 (* ---------------------------------------------------------------- 1. plain_aggregates (any S)
@@ -266,16 +266,84 @@ Theorem C04_pointwise_lifting_poisson :
     = AggOk 2 [0; 1; 0; 1]%Z [[false; true]; [false; true]; [true; false]; [true; false]].
 Proof. exact pointwise_lifting_poisson. Qed.
 Print Assumptions C04_pointwise_lifting_poisson.
-(* NOT PROVED (tested: ops kron_sa): the smoothed P of A (x) I_b equals P (x) I_b (lifted_sa). *)
 
-(* ---------------------------------------------------------------- 4b. Ruge-Stuben row sums
-   FULL STATEMENT (unproved; needs the laws of an ordered field for abs/min/max -- tested by the
-   oracle o.rs_rowsum = rs_rowsum_ok on every implementation output):
-     row i not 'C', zero row sum, a strong negative C neighbour, one positive stored diagonal entry,
-     and (no truncation or eps_trunc < 1)  =>  the row of P sums to one.
-   Proved instance: the witness of the former finding C04-rs-truncation-tie (entry exactly on the
-   truncation threshold; fixed by /repo 8384831): the entry is dropped and the remaining weight is
-   rescaled, the row sums to one. *)
+(* the smoothed P lifts as well (any S): smoothed_aggregation on A (x) I_b with block_size b returns
+   P (x) I_b and its transpose, P = the smoothed operator of A built with the flags of |A| *)
+Theorem C04_smoothed_P_lifting (S : Scalar) (eps2 omega : S) b (A : crs S) junk :
+  1 < b -> forallb sorted_strict (rows A) = true ->
+  sa_transfer_omega eps2 omega b (kron_id b A) junk = lifted_sa eps2 omega b A junk.
+Proof. exact (sa_transfer_kron eps2 omega b A junk). Qed.
+Print Assumptions C04_smoothed_P_lifting.
+
+(* ---------------------------------------------------------------- 4b. Ruge-Stuben row sums (ordered field)
+   Order hypotheses: the set of MatOps2Proofs.Gersh (irreflexive, transitive, total <, compatible with
+   + and with * by positives) plus the defining equation of abs; closed at Qc below.
+   r = the stored entries of row i with their S.val flags (zip_row).  Notation of the statement:
+     fsum p r          = sum of the values of the entries of r that satisfy p
+     pDI i             = entry is in column i              lastd i r 0 = the value the code keeps in [dia]
+     pAD cf i / pBD cf i = negative / non-negative off-diagonal entries that are strong with a 'C' column
+                         (their sums are a_den / b_den of the code)
+     pDN / pDP         = those among them that the truncation drops (sums d_neg / d_pos)
+   Guards, all needed by the code: row i is not 'C'; 0 <= eps, 0 <= eps_trunc; zero row sum; the
+   diagonal is stored once; |a_den| > eps and, with truncation, |a_den - d_neg| > eps; the positive
+   strong-C part is either below eps (|b_den| < eps) or visible (|b_den| > eps, surviving truncation)
+   with a positive diagonal.  (|b_den| = eps exactly is covered by neither branch of the code
+   consistently: `< eps` moves b_num to the diagonal, `> eps` interpolates; see final report.) *)
+Section OrderedField.
+Variable S : Scalar.
+Hypothesis Sft : Sfield S.
+Hypothesis lt_irrefl : forall x : S, sltb x x = false.
+Hypothesis lt_trans  : forall x y z : S, sltb x y = true -> sltb y z = true -> sltb x z = true.
+Hypothesis lt_total  : forall x y : S, sltb x y = false -> sltb y x = false -> x = y.
+Hypothesis lt_add : forall x y z : S, sltb x y = true -> sltb (x + z) (y + z) = true.
+Hypothesis lt_mul : forall x y z : S, sltb s0 z = true -> sltb x y = true -> sltb (x * z) (y * z) = true.
+Hypothesis abs_def : forall x : S, sabs x = if sltb x s0 then - x else x.
+
+Theorem C04_rs_row_sum_one (eps et : S) (dt : bool) cf cidx i (r : list (nat * S * bool)) :
+  cfm_eqb (cfget cf i) CC = false -> lep S s0 eps -> lep S s0 et ->
+  let Amin := fst (rs_minmax cf r) * et in
+  let Amax := snd (rs_minmax cf r) * et in
+  fsum S (fun _ => true) r = s0 ->
+  fsum S (pDI S i) r = lastd S i r s0 ->
+  sltb eps (sabs (fsum S (pAD S cf i) r)) = true ->
+  (dt = true -> sltb eps (sabs (fsum S (pAD S cf i) r - fsum S (pDN S dt cf i Amin) r)) = true) ->
+  (sltb (sabs (fsum S (pBD S cf i) r)) eps = true \/
+   (sltb eps (sabs (fsum S (pBD S cf i) r)) = true /\
+    (dt = true -> sltb eps (sabs (fsum S (pBD S cf i) r - fsum S (pDP S dt cf i Amax) r)) = true) /\
+    sltb s0 (lastd S i r s0) = true)) ->
+  row_sum (rs_interp_row eps et dt cf cidx i r) = s1.
+Proof. exact (rs_interp_row_sum_one S Sft lt_irrefl lt_trans lt_total lt_add lt_mul abs_def eps et dt cf cidx i r). Qed.
+End OrderedField.
+
+Theorem C04_rs_row_sum_one_Qc (eps et : QcS) (dt : bool) cf cidx i (r : list (nat * QcS * bool)) :
+  cfm_eqb (cfget cf i) CC = false -> lep QcS s0 eps -> lep QcS s0 et ->
+  let Amin := fst (rs_minmax cf r) * et in
+  let Amax := snd (rs_minmax cf r) * et in
+  fsum QcS (fun _ => true) r = s0 ->
+  fsum QcS (pDI QcS i) r = lastd QcS i r s0 ->
+  sltb eps (sabs (fsum QcS (pAD QcS cf i) r)) = true ->
+  (dt = true -> sltb eps (sabs (fsum QcS (pAD QcS cf i) r - fsum QcS (pDN QcS dt cf i Amin) r)) = true) ->
+  (sltb (sabs (fsum QcS (pBD QcS cf i) r)) eps = true \/
+   (sltb eps (sabs (fsum QcS (pBD QcS cf i) r)) = true /\
+    (dt = true -> sltb eps (sabs (fsum QcS (pBD QcS cf i) r - fsum QcS (pDP QcS dt cf i Amax) r)) = true) /\
+    sltb s0 (lastd QcS i r s0) = true)) ->
+  row_sum (rs_interp_row eps et dt cf cidx i r) = s1.
+Proof.
+  exact (C04_rs_row_sum_one QcS QcS_field MatOps2Proofs.Gersh.QcS_lt_irrefl MatOps2Proofs.Gersh.QcS_lt_trans
+           MatOps2Proofs.Gersh.QcS_lt_total MatOps2Proofs.Gersh.QcS_lt_add MatOps2Proofs.Gersh.QcS_lt_mul
+           QcS_abs_def eps et dt cf cidx i r).
+Qed.
+Print Assumptions C04_rs_row_sum_one_Qc.
+
+(* the row of P the policy returns for a non-'C' variable is that interpolation row *)
+Theorem C04_rs_row_of_P (S : Scalar) (eps et : S) dt (A : crs S) Sv cf P R i :
+  rs_interp eps et dt A Sv cf = TrOk P R -> i < nrows A -> cfm_eqb (cfget cf i) CC = false ->
+  nth i (rows P) [] = rs_interp_row eps et dt cf (fst (rs_cidx cf)) i (zip_row (nth i (rows A) []) (nth i Sv [])).
+Proof. exact (rs_interp_row_nth eps et dt A Sv cf P R i). Qed.
+Print Assumptions C04_rs_row_of_P.
+
+(* instance: the witness of the former finding C04-rs-truncation-tie (entry exactly on the truncation
+   threshold; fixed by /repo 8384831): the entry is dropped and the remaining weight rescaled *)
 Theorem C04_rs_truncation_tie_rescaled :
   is_symmetric rs_tie_A = true /\
   match rs_cf (qc 1 4) rs_tie_A (no_junk rs_tie_A), rs_transfer (qc 1 4) (qc 1 2) true rs_tie_A (no_junk rs_tie_A) with
@@ -306,3 +374,21 @@ Example C04_sa_row_sum_nonvacuous :
   | _ => False
   end.
 Proof. split; [reflexivity|]. split; [reflexivity|]. split; [exact lap3_struct_sym|]. vm_compute. reflexivity. Qed.
+
+(* non-vacuity of the Ruge-Stuben row-sum theorem: row 2 of rs_tie_A (truncation active, an entry on the
+   threshold) meets every guard *)
+Example C04_rs_row_sum_nonvacuous :
+  match rs_cf (qc 1 4) rs_tie_A (no_junk rs_tie_A) with
+  | Some (Sv, cf) =>
+      let r := zip_row (nth 2 (rows rs_tie_A) []) (nth 2 Sv []) in
+      let Amin := fst (rs_minmax cf r) * qc 1 2 in
+      let Amax := snd (rs_minmax cf r) * qc 1 2 in
+      cfm_eqb (cfget cf 2) CC = false /\
+      seqb (fsum QcS (fun _ => true) r) s0 = true /\
+      seqb (fsum QcS (pDI QcS 2) r) (lastd QcS 2 r s0) = true /\
+      sltb (rs_eps (S:=QcS)) (sabs (fsum QcS (pAD QcS cf 2) r)) = true /\
+      sltb (rs_eps (S:=QcS)) (sabs (fsum QcS (pAD QcS cf 2) r - fsum QcS (pDN QcS true cf 2 Amin) r)) = true /\
+      sltb (sabs (fsum QcS (pBD QcS cf 2) r)) (rs_eps (S:=QcS)) = true
+  | None => False
+  end.
+Proof. vm_compute. repeat split; reflexivity. Qed.
